@@ -69,3 +69,66 @@ pub fn boundary_u64(small: u64) -> Vec<u64> {
     v.dedup();
     v
 }
+
+// ---------------------------------------------------------------------------------------------
+// Committees
+
+use zksync_consensus_roles::validator::{
+    BlockNumber, ChainId, EpochNumber, ForkNumber, Genesis, GenesisRaw, LeaderSelection, LeaderSelectionMode, ProtocolVersion, Schedule, SecretKey, ValidatorInfo,
+};
+
+#[derive(Clone)]
+pub struct Committee {
+    /// secret keys in schedule (= public key) order
+    pub keys: Vec<SecretKey>,
+    /// weights in schedule order
+    pub weights: Vec<u64>,
+    pub schedule: Schedule,
+    pub genesis: Genesis,
+    pub epoch: EpochNumber,
+}
+
+impl Committee {
+    pub fn n(&self) -> usize {
+        self.keys.len()
+    }
+    pub fn total(&self) -> u64 {
+        self.weights.iter().sum()
+    }
+    /// own arithmetic (not the library's)
+    pub fn max_faulty(&self) -> u64 {
+        (self.total() - 1) / 5
+    }
+    pub fn quorum(&self) -> u64 {
+        self.total() - self.max_faulty()
+    }
+    pub fn subquorum(&self) -> u64 {
+        self.total() - 3 * self.max_faulty()
+    }
+    pub fn weight_of(&self, mask: u32) -> u64 {
+        (0..self.n()).filter(|i| mask >> i & 1 == 1).map(|i| self.weights[i]).sum()
+    }
+}
+
+pub fn committee_with(seed: u64, weights: &[u64], fork: u64, first_block: u64, sel: LeaderSelection) -> Committee {
+    let mut keys = validator_keys(seed, weights.len());
+    keys.sort_by_key(|k| k.public());
+    let schedule = Schedule::new(
+        keys.iter().zip(weights).map(|(k, w)| ValidatorInfo { key: k.public(), weight: *w, leader: true }),
+        sel,
+    )
+    .expect("valid schedule");
+    let genesis = GenesisRaw {
+        chain_id: ChainId(1337),
+        fork_number: ForkNumber(fork),
+        protocol_version: ProtocolVersion::CURRENT,
+        first_block: BlockNumber(first_block),
+        validators_schedule: Some(schedule.clone()),
+    }
+    .with_hash();
+    Committee { keys, weights: weights.to_vec(), schedule, genesis, epoch: EpochNumber(0) }
+}
+
+pub fn committee(seed: u64, weights: &[u64]) -> Committee {
+    committee_with(seed, weights, 0, 0, LeaderSelection { frequency: 1, mode: LeaderSelectionMode::RoundRobin })
+}
